@@ -195,12 +195,29 @@ uint64_t nDecodes = 0, nWellformed = 0, nCompared = 0;
 
 Bytes showMsg(const Bytes &m) { return V::esc(m.size() > 96 ? m.substr(0, 96) + "...(" + std::to_string(m.size()) + " octets)" : m); }
 
+uint64_t nRootDot = 0;
+// Octet-wise comparison of Squid's name buffer with the reference text.  A name whose last label is followed by
+// a compression pointer to the root label comes out of Squid with one trailing '.' ("w." for labels {w}): the
+// same name in fully-qualified spelling, which rfc1035QueryCompare treats as equal.  Tolerated and counted.
 bool sameName(const char *buf, const Bytes &want) {
-    return want.size() < RFC1035_MAXHOSTNAMESZ && memcmp(buf, want.c_str(), want.size() + 1) == 0;
+    if (want.size() + 1 >= RFC1035_MAXHOSTNAMESZ || memcmp(buf, want.data(), want.size()) != 0) return false;
+    if (buf[want.size()] == 0) return true;
+    if (!want.empty() && buf[want.size()] == '.' && buf[want.size() + 1] == 0) { ++nRootDot; return true; }
+    return false;
 }
 
 // Feeds m to rfc1035MessageUnpack; returns an outcome class.  how: description of the datagram for messages.
-const char *decodeOne(const Bytes &m, const std::string &how) {
+struct How {     // description of a datagram, rendered only when something has to be reported
+    const std::string *base; int kind; size_t pos; unsigned val;
+    std::string str() const {
+        char d[64] = "";
+        if (kind == 1) snprintf(d, sizeof d, " truncated to %zu", pos);
+        else if (kind == 2) snprintf(d, sizeof d, " with octet %zu = 0x%02x", pos, val);
+        return *base + d;
+    }
+};
+
+const char *decodeOne(const Bytes &m, const How &howLazy) {
     ++nDecodes;
     DMsg ref;
     const char *why = refDecode(m, ref);
@@ -227,7 +244,7 @@ const char *decodeOne(const Bytes &m, const std::string &how) {
             }
         }
     }
-    if (!bad.empty()) V::failKey("unpack:inconsistent-result", how + ": " + bad + " for " + showMsg(m));
+    if (!bad.empty()) V::failKey("unpack:inconsistent-result", howLazy.str() + ": " + bad + " for " + showMsg(m));
     // (2) faithfulness on well-formed datagrams
     if (wf && bad.empty()) {
         ++nWellformed;
@@ -253,7 +270,7 @@ const char *decodeOne(const Bytes &m, const std::string &how) {
                     else if (rr.rdlength != w.rdlength || (w.rdlength && memcmp(rr.rdata, w.rdata.data(), w.rdlength) != 0)) tag = "rdata", diff = at + "RDATA differs (rdlength " + std::to_string(rr.rdlength) + " vs " + std::to_string(w.rdlength) + ")";
                 }
         }
-        if (!diff.empty()) V::failKey(std::string("unpack:unfaithful:") + (ref.rcode ? "rcode" : "ok") + ":" + tag, how + ": " + diff + " for well-formed " + showMsg(m));
+        if (!diff.empty()) V::failKey(std::string("unpack:unfaithful:") + (ref.rcode ? "rcode" : "ok") + ":" + tag, howLazy.str() + ": " + diff + " for well-formed " + showMsg(m));
         cls = ref.rcode ? "wellformed:rcode" : ref.an ? "wellformed:answers" : "wellformed:no-answers";
     }
     if (msg) rfc1035MessageDestroy(&msg);
@@ -263,8 +280,18 @@ const char *decodeOne(const Bytes &m, const std::string &how) {
 
 const unsigned char MutVals[] = {0x00, 0xFF, 0xC0, 0x3F, 0x0C};
 
-// the message itself, every truncation, every single-octet mutation
-void explore(const Bytes &m, const std::string &how, bool mustBeWellformed, const DMsg *want) {
+std::map<std::string, uint64_t> localOutcomes;     // merged into V::S().outcomes at the end (saves a string per decode)
+void tally(const char *prefix, const char *cls) {
+    static std::map<std::pair<const char *, const char *>, uint64_t *> fast;
+    uint64_t *&slot = fast[{prefix, cls}];
+    if (!slot) slot = &localOutcomes[std::string(prefix) + cls];
+    ++*slot;
+}
+
+// the message itself, every truncation, every single-octet mutation.
+// hugeCounts: also set the high octet of ANCOUNT to 0xFF/0xC0/0x3F/0x0C (an 18 MB record array per decode: done for the small
+// messages and the seeds only; everywhere else octet 6 is mutated to 0x00 and +1, i.e. up to 511 records).
+void explore(const Bytes &m, const std::string &how, bool mustBeWellformed, const DMsg *want, bool hugeCounts, bool mutate = true) {
     if (mustBeWellformed) {
         // self-test: the independent reference decoder must agree with the reference encoder
         DMsg r;
@@ -275,25 +302,25 @@ void explore(const Bytes &m, const std::string &how, bool mustBeWellformed, cons
                    r.answers[i].rdata == want->answers[i].rdata && (r.answers[i].type == tPTR || r.answers[i].rdlength == want->answers[i].rdlength);
         if (!same) { V::fail("harness self-test: reference decoder and encoder disagree (" + std::string(why) + ") on " + how + " " + showMsg(m)); return; }
     }
-    V::outcome(std::string("intact:") + decodeOne(m, how));
+    tally("intact:", decodeOne(m, How{&how, 0, 0, 0}));
     for (size_t len = 0; len < m.size(); ++len)
-        V::outcome(std::string("truncated:") + decodeOne(m.substr(0, len), how + " truncated to " + std::to_string(len)));
+        tally("truncated:", decodeOne(m.substr(0, len), How{&how, 1, len, 0}));
+    if (!mutate) return;
     Bytes x = m;
     for (size_t p = 0; p < m.size(); ++p) {
         const unsigned char orig = m[p];
         unsigned char vals[7];
         size_t nv = 0;
-        for (unsigned char v : MutVals) vals[nv++] = v;
+        if (p != 6 || hugeCounts) for (unsigned char v : MutVals) vals[nv++] = v; else vals[nv++] = 0;
         vals[nv++] = orig + 1;
-        vals[nv++] = (unsigned char)(p ? p - 1 : 0);          // after a 0xC0 octet: a pointer to itself
+        if (p != 6) vals[nv++] = (unsigned char)(p ? p - 1 : 0);          // after a 0xC0 octet: a pointer to itself
         for (size_t k = 0; k < nv; ++k) {
             if (vals[k] == orig) continue;
             bool dup = false;
             for (size_t j = 0; j < k; ++j) dup = dup || vals[j] == vals[k];
             if (dup) continue;
             x[p] = (char)vals[k];
-            char d[64]; snprintf(d, sizeof d, " with octet %zu = 0x%02x", p, vals[k]);
-            V::outcome(std::string("mutated:") + decodeOne(x, how + d));
+            tally("mutated:", decodeOne(x, How{&how, 2, p, vals[k]}));
         }
         x[p] = (char)orig;
     }
@@ -329,7 +356,8 @@ std::vector<std::pair<std::string, Bytes>> seeds() {
         m += (char)63; m += std::string(63, 'z'); putPtr(m, 12); rrTail(m, 1, Bytes("\1\2\3\4", 4));
         v.push_back({"over-long names", m});
     }
-    { Bytes m = hdr(1, 65535); m += '\0'; put16(m, 1); put16(m, 1); for (int i = 0; i < 40; ++i) { m += '\0'; rrTail(m, 1, Bytes()); } v.push_back({"ancount 65535 with 40 empty records", m}); }
+    { Bytes m = hdr(1, 1024); m += '\0'; put16(m, 1); put16(m, 1); for (int i = 0; i < 40; ++i) { m += '\0'; rrTail(m, 1, Bytes()); } v.push_back({"ancount 1024 with 40 empty records", m}); }
+    { Bytes m = hdr(1, 65535); m += '\0'; put16(m, 1); put16(m, 1); for (int i = 0; i < 3; ++i) { m += '\0'; rrTail(m, 1, Bytes()); } v.push_back({"ancount 65535 with 3 empty records (truncations only)", m}); }
     { Bytes m = hdr(1, 1); m += '\0'; put16(m, 1); put16(m, 1); m += '\0'; rrTail(m, 12, Bytes("\0", 1)); v.push_back({"root names everywhere (well-formed)", m}); }
     return v;
 }
@@ -470,29 +498,29 @@ void body(V::Ctx &ctx)
     std::vector<Kind> kinds;
     for (int t : Types) for (int c = 0; c < 4; ++c) kinds.push_back({t, c});
 
-    const int nHdr = quick ? 3 : 4;
-    const int hdrOrder[4] = {0, 1, 2, 3};
-    // quick:    names <= 2 labels x answer lists of length <= 2 x 3 headers, plus names of 3 labels x lists of length <= 1
-    // thorough: names <= 3 labels x lists <= 2, names <= 2 labels x lists of length 3, x 4 headers; headers 4,5 with lists <= 1
+    // quick:    headers 0-2 x { names <= 2 labels x answer lists of length <= 2,  names of 3 labels x lists of length <= 1 }
+    // thorough: headers 0-3 x { names <= 3 labels x lists <= 2 } + headers 0,1 x { names <= 1 label x lists of length 3 }
+    //           + headers 4,5 x names <= 3 labels x lists <= 1
     auto runSpec = [&](Spec &s) {
         DMsg want;
         const Bytes m = encode(s, want);
-        explore(m, describe(s), true, &want);
+        const bool small = s.hdr == 0 && s.qname.size() <= 1 && s.rrs.size() <= 1;
+        explore(m, describe(s), true, &want, small);
     };
-    for (int hi = 0; hi < (quick ? nHdr : 6); ++hi) {
-        const int h = hi < 4 ? hdrOrder[hi] : hi;
-        const std::vector<Labels> &names = names3;
-        for (size_t ni = 0; ni < names.size(); ++ni) {
-            const bool three = names[ni].size() == 3;
-            int maxRR = quick ? (three ? 1 : 2) : (three ? 2 : 3);
-            if (hi >= 4) maxRR = 1;
-            Spec s; s.hdr = h; s.qname = names[ni];
+    for (int h = 0; h < (quick ? 3 : 6); ++h) {
+        for (size_t ni = 0; ni < names3.size(); ++ni) {
+            const size_t nl = names3[ni].size();
+            int maxRR;
+            if (quick) maxRR = nl == 3 ? 1 : 2;
+            else if (h >= 4) maxRR = 1;
+            else maxRR = (nl <= 1 && h <= 1) ? 3 : 2;
+            Spec s; s.hdr = h; s.qname = names3[ni];
             // one case for the empty list + one per first answer kind
-            if (V::begin_case("msg:" + describe(s) + " (no answers)")) { alarm(120); runSpec(s); alarm(0); V::end_case(); }
+            if (V::begin_case("msg:" + describe(s) + " (no answers)")) { alarm(300); runSpec(s); alarm(0); V::end_case(); }
             for (const Kind &k0 : kinds) {
                 s.rrs = {k0};
-                if (!V::begin_case("msg:" + describe(s) + " ...")) continue;
-                alarm(600);
+                if (!V::begin_case("msg:" + describe(s) + " ...")) { s.rrs.clear(); continue; }
+                alarm(900);      // a decoder that loops is killed here and reported as a crash (signal 14) of this case
                 runSpec(s);
                 if (maxRR >= 2)
                     for (const Kind &k1 : kinds) {
@@ -509,12 +537,14 @@ void body(V::Ctx &ctx)
     }
     for (auto &sd : seeds()) {
         if (!V::begin_case("seed:" + sd.first)) continue;
-        alarm(120);
-        explore(sd.second, "seed '" + sd.first + "'", false, nullptr);
+        alarm(600);
+        explore(sd.second, "seed '" + sd.first + "'", false, nullptr, true, sd.first.find("truncations only") == std::string::npos);
         alarm(0);
         V::end_case();
     }
     packers(quick);
+    for (auto &o : localOutcomes) V::S().outcomes[o.first] += o.second;
+    V::count("names_with_trailing_root_dot", nRootDot);
     V::count("unpack_calls", nDecodes);
     V::count("wellformed_datagrams", nWellformed);
     V::count("field_by_field_comparisons", nCompared);
